@@ -56,6 +56,7 @@ type Path struct {
 	depth     int
 	steps     int
 	blobID    int
+	concats   map[view][]view // concatenation provenance of strings
 	script    *smt.Script // incremental mode: persistent per-path script
 	sentPC    int
 	sentInst  map[int]bool
@@ -108,6 +109,7 @@ type Exec struct {
 	digitAtoms       []*smt.Term
 	bech32Atoms      []*smt.Term
 	viewAtoms        []viewAtom
+	keyPairs         []*smt.Term
 }
 
 // ResultSet accumulates the results of the paths of one harness.
@@ -263,7 +265,7 @@ func (e *Exec) runOnePath(fn *ssa.Function, prefix []int) {
 		extra:     map[string]interface{}{},
 	}
 	e.catchDepth = 0
-	e.curDeferFrame, e.joins, e.splitObligations, e.digitAtoms, e.bech32Atoms, e.viewAtoms = nil, nil, nil, nil, nil, nil
+	e.curDeferFrame, e.joins, e.splitObligations, e.digitAtoms, e.bech32Atoms, e.viewAtoms, e.keyPairs = nil, nil, nil, nil, nil, nil, nil
 	e.initMode = false
 	reason := "returned"
 	func() {
